@@ -36,6 +36,7 @@ type Env struct {
 	cur   *State // the non-old state while translating inside old(...)
 	loopHead *ssa.BasicBlock // loop header for $i / $visited when `at` is not the header
 	atStart  bool            // evaluation point is the start of block `at` (loop head)
+	renamed  bool            // name already mapped through the rename map
 	lax      bool            // postconditions: a local not defined on this path is an arbitrary value
 }
 
